@@ -17,6 +17,9 @@ class C08(Oracle):
         R.hooks.decision_cbs.append(self.on_decision)
 
     def domain(self, node_id):
+        return self.R.kind(self.R.sim.transitive_nodes[node_id - 1]) in ("int", "sched", "slot")
+
+    def has_servers(self, node_id):
         return self.R.kind(self.R.sim.transitive_nodes[node_id - 1]) in ("int", "sched")
 
     def prio_of(self, nid, iid):
@@ -64,7 +67,7 @@ class C08(Oracle):
         elif k == "att":
             nid, iid = ev[3], ev[5]
             self.inserv.setdefault(nid, set()).add(iid)
-            if self.domain(nid) and self.R.ev_type != "class_change":
+            if self.has_servers(nid) and self.R.ev_type != "class_change":
                 for j, d in enumerate(self.decisions):
                     if d == (nid, iid):
                         del self.decisions[j]
@@ -95,6 +98,9 @@ class C08(Oracle):
         nd = R.sim.transitive_nodes[node_id - 1]
         present = {i.id_number: i for i in R.inds(nd)}
         ins = self.inserv.get(node_id, set())
+        if not self.has_servers(node_id):
+            # slotted node: no server objects, hence no attach/detach events; a customer in (or interrupted from) service is flagged
+            ins = set(i.id_number for i in R.inds(nd) if i.server)
         lines = self.lines.get(node_id, {})
         known = set(i for l in lines.values() for i in l)
         new = [iid for iid in present if iid not in known]
